@@ -182,6 +182,13 @@ func ParseData(data []byte) (Config, error) {
 					return Config{}, fmt.Errorf("[%s] %s: failed to parse evcode key: %w", name, evcodeRaw, err)
 				}
 
+				if analog.ChannelOffset < 0 || analog.ChannelOffset > 15 {
+					return Config{}, fmt.Errorf("[%s] %s: channel offset outside of 0-15 range: %d", name, evcodeRaw, analog.ChannelOffset)
+				}
+				if analog.ChannelOffsetNegative < 0 || analog.ChannelOffsetNegative > 15 {
+					return Config{}, fmt.Errorf("[%s] %s: negative channel offset outside of 0-15 range: %d", name, evcodeRaw, analog.ChannelOffsetNegative)
+				}
+
 				mappingType := MappingType(analog.Type)
 				if !SupportedMappingTypes[mappingType] {
 					return Config{}, fmt.Errorf("[%s] %s: mapping type not supported: %s", name, evcodeRaw, analog.Type)
@@ -284,6 +291,8 @@ func ParseData(data []byte) (Config, error) {
 						MappingType:      mappingType,
 						Note:             note,
 						NoteNeg:          noteNeg,
+						ChannelOffset:    byte(analog.ChannelOffset),
+						ChannelOffsetNeg: byte(analog.ChannelOffsetNegative),
 						FlipAxis:         analog.FlipAxis,
 						Bidirectional:    bidirectional,
 						DeadzoneAtCenter: analog.DeadzoneAtCenter,
